@@ -13,6 +13,7 @@ CONSTANTS
   Others = {"r2"}
   FixF1 = FALSE
   FixF2 = FALSE
+  FixF3 = FALSE
 VIEW View
 INVARIANTS NoEarlyEvent NoLossExceptKnown Ordered CacheFollows
 CHECK_DEADLOCK FALSE
